@@ -133,6 +133,17 @@ class Session:
         if resp.startswith('HANG') or not resp:
             out.append(Violation('hang', 'block', '%s: the connection blocked forever' % opdesc, None))
             return
+        mo = re.search(r' cdump=(\S+)', resp)
+        self.cdump = mo.group(1) if mo else ''
+        if mo:
+            # the connection's own table of outstanding calls must hold exactly the calls the model still considers
+            # outstanding (a completed or cancelled call that stays in the table can be completed a second time)
+            tab = set(int(x.split(':')[0]) for x in re.search(r'pending=\[([^\]]*)\]', self.cdump).group(1).split(',') if x)
+            for i, c in self.calls.items():
+                if c['state'] == 'pending' and self.connected and c['serial'] not in tab:
+                    out.append(Violation('pending-table-differs', 'missing', '%s: call %d (serial %d) is outstanding but not in the connection\'s pending table %r' % (opdesc, i, c['serial'], sorted(tab)), None))
+                if c['state'] in ('done', 'cancelled') and c['serial'] in tab:
+                    out.append(Violation('pending-table-differs', 'stale', '%s: call %d (serial %d, %s) is still in the connection\'s pending table' % (opdesc, i, c['serial'], c['state']), None))
         got = {}
         for mo in re.finditer(r'pc(\d+)=(\d+)/(\d+)/(\S+)', resp):
             got[int(mo.group(1))] = (int(mo.group(2)), int(mo.group(3)), mo.group(4))
@@ -283,7 +294,11 @@ class Session:
         for i in sorted(self.calls):
             c = self.calls[i]
             rel.append((i, c['state'], c['outcome'], c['timeout'], (c['deadline'] - self.time) if c['state'] == 'pending' and c['timeout'] != INFINITE else None))
-        return repr(rel) + repr(self.queued) + repr(self.connected)
+        # the implementation's own state (hook H2), with serials renamed to call indices
+        cd = getattr(self, 'cdump', '')
+        for i, c in self.calls.items():
+            cd = re.sub(r'([\[,])%d:' % c['serial'], r'\1c%d:' % i, cd)
+        return repr(rel) + repr(self.queued) + repr(self.connected) + cd
 
     def died(self):
         self.h.close()
